@@ -69,7 +69,18 @@ type State struct {
 	blocking   []string
 	selects    [][]string
 	hookResult *Val
+	curInstr   ssa.Instruction
+	frontier   Term // allocation frontier: every object existing now is <= frontier + frontN
+	frontN     int
+	pending    map[string]Term     // components havocked before their first use (value: frontier at the time)
+	baseVer    map[string]baseInfo // last havocked version of a heap component and the frontier bounding its references
+	callFresh  []Term
 	locks      []lockTouch
+}
+
+type baseInfo struct {
+	ver   Term
+	bound Term
 }
 
 // Cell is a non-escaping local variable.
@@ -122,6 +133,9 @@ type Ctx struct {
 	maxPaths int
 	pathSeq  int
 	axioms   []axiomText
+	frame    []frameLoc
+	frameDone bool
+	frameErr []string
 	closureN int
 	closures map[string]*Closure // by id term
 	loopHdrs map[*ssa.BasicBlock]*loopInfo
@@ -199,6 +213,14 @@ func (st *State) clone() *State {
 	}
 	n.pc = st.pc[:len(st.pc):len(st.pc)]
 	n.trace = st.trace[:len(st.trace):len(st.trace)]
+	n.pending = make(map[string]Term, len(st.pending))
+	for k, v := range st.pending {
+		n.pending[k] = v
+	}
+	n.baseVer = make(map[string]baseInfo, len(st.baseVer))
+	for k, v := range st.baseVer {
+		n.baseVer[k] = v
+	}
 	n.ghost = make(map[string]Val, len(st.ghost))
 	for k, v := range st.ghost {
 		n.ghost[k] = v
@@ -258,12 +280,20 @@ func (st *State) heapTerm(key, elemSort string, twoLevel bool) Term {
 		sort = arrSort(arrSort(elemSort))
 	}
 	t := st.ctx.declare(key+"@0", sort)
-	st.heap[key] = t
 	if st.entry != nil && st.entry != st {
 		if _, ok := st.entry.heap[key]; !ok {
 			st.entry.heap[key] = t
 		}
 	}
+	if bound, pend := st.pending[key]; pend {
+		// the component was havocked (by a call or a loop) before its first use on this path
+		nv := st.ctx.freshConst(key+"@h", sort)
+		st.heap[key] = nv
+		st.baseVer[key] = baseInfo{ver: nv, bound: bound}
+		delete(st.pending, key)
+		return nv
+	}
+	st.heap[key] = t
 	return t
 }
 
@@ -280,10 +310,34 @@ func (st *State) setHeap(key string, val Term) {
 func (st *State) havocKey(key string) {
 	cur, ok := st.heap[key]
 	if !ok {
-		return // never touched on this path: its (lazy) entry version is already arbitrary... but must be a new version
+		// not used yet on this path: remember that its first use must not see the entry version
+		st.pending[key] = st.frontierTerm()
+		st.tainted[key] = true
+		return
 	}
-	st.heap[key] = st.ctx.freshConst(key+"@h", cur.Sort)
+	nv := st.ctx.freshConst(key+"@h", cur.Sort)
+	st.heap[key] = nv
 	st.tainted[key] = true
+	st.baseVer[key] = baseInfo{ver: nv, bound: st.frontierTerm()}
+}
+
+func (st *State) frontierTerm() Term {
+	if st.frontier.S == "" {
+		return Term{"A0", SInt}
+	}
+	return st.frontier
+}
+
+// bumpFrontier introduces a new allocation frontier: everything that exists
+// now (including objects a callee or earlier loop iterations allocated) is
+// below it, everything allocated from now on is above it.
+func (st *State) bumpFrontier() (oldF Term, oldN int) {
+	oldF, oldN = st.frontierTerm(), st.frontN
+	nf := st.ctx.freshConst("B", SInt)
+	st.assume(Ge(nf, Add(oldF, I(int64(oldN)))))
+	st.frontier = nf
+	st.frontN = 0
+	return
 }
 
 // leaves addressed by a pointer
@@ -361,13 +415,17 @@ func (st *State) oldRefFacts(p *PtrInfo, root types.Type, off, n int) []Term {
 			key = elemKey(root, l.Path)
 		}
 		h0, ok := ent.heap[key]
+		bound := a0
+		if bi, hav := st.baseVer[key]; hav {
+			h0, bound, ok = bi.ver, bi.bound, true
+		}
 		if !ok {
 			continue
 		}
 		if p.Kind == pkHeap {
-			out = append(out, Le(Select(h0, p.Ref), a0))
+			out = append(out, Le(Select(h0, p.Ref), bound))
 		} else {
-			out = append(out, Le(Select(Select(h0, p.Ref), p.Idx), a0))
+			out = append(out, Le(Select(Select(h0, p.Ref), p.Idx), bound))
 		}
 	}
 	return out
@@ -511,8 +569,8 @@ func (st *State) freshVal(t types.Type, prefix string) Val {
 
 func (st *State) newRef() Term {
 	st.ctx.allocN++
-	a0 := st.ctx.declare("A0", SInt)
-	return Add(a0, I(int64(st.ctx.allocN)))
+	st.frontN++
+	return Add(st.frontierTerm(), I(int64(st.frontN)))
 }
 
 func (st *State) newCell(t types.Type) int {
